@@ -684,7 +684,14 @@ func (s *Store) GetSize(key []byte) (types.Size, bool, error) {
 	// The index stores only prefixes, hence check if the given key fully matches the
 	// key that is stored in the primary storage before returning the actual value.
 	// TODO: avoid second lookup
-	primaryIndexKey, err := s.index.Primary.GetIndexKey(blk)
+	storedKey, _, err := s.index.Primary.Get(blk)
+	if err != nil {
+		return 0, false, err
+	}
+	if storedKey == nil {
+		return 0, false, nil
+	}
+	primaryIndexKey, err := s.index.Primary.IndexKey(storedKey)
 	if err != nil {
 		return 0, false, err
 	}
@@ -692,7 +699,9 @@ func (s *Store) GetSize(key []byte) (types.Size, bool, error) {
 	if !bytes.Equal(indexKey, primaryIndexKey) {
 		return 0, false, nil
 	}
-	return blk.Size - types.Size(len(key)), true, nil
+	// The stored key may be a different encoding of the same index key (e.g.
+	// CIDv0 vs CIDv1), so subtract the length of the key actually stored.
+	return blk.Size - types.Size(len(storedKey)), true, nil
 }
 
 // IndexStorageSize returns the storage used by the index files.
